@@ -138,6 +138,13 @@ func (d *Decoder) decodeSlice(pkt *rtp.Packet) ([]byte, error) {
 			return nil, fmt.Errorf("discarding frame since a RTP packet is missing")
 		}
 
+		if (d.fragmentsSize + len(pkt.Payload[4:])) > maxFrameSize {
+			errSize := d.fragmentsSize + len(pkt.Payload[4:])
+			d.resetFragments()
+			return nil, fmt.Errorf("slice size (%d) is too big, maximum is %d",
+				errSize, maxFrameSize)
+		}
+
 		d.fragments = append(d.fragments, pkt.Payload[4:])
 		d.fragmentsSize += len(pkt.Payload[4:])
 		d.fragmentNextSeqNum++
